@@ -91,7 +91,10 @@ def cases(draw):
             if draw(st.integers(0, 3)) == 0:
                 kw[a[0]] = draw(value_for(a, ci, ref))
         creations.append({'cls': ci, 'pos': pos, 'kw': kw, 'via': draw(st.sampled_from(['model', 'metaclass', 'call']))})
-    return {'classes': classes, 'ref': ref, 'unknown': unknown, 'gen': gen, 'seq': seq, 'creations': creations}
+    # the metamodel's generator may be replaced between two creations (metamodel.id_generator is a plain attribute;
+    # bridgepoint's Domain is built without one and given one afterwards)
+    swap = draw(st.integers(1, len(creations))) if draw(st.integers(0, 2)) == 0 else None
+    return {'classes': classes, 'ref': ref, 'unknown': unknown, 'gen': gen, 'seq': seq, 'creations': creations, 'swap': swap}
 
 
 def value_for(attr, ci, ref):
@@ -139,7 +142,12 @@ def run_case(case, res=None):
     explicit = defaulted = 0
     touched = set()
     created = 0
-    for cr in case['creations']:
+    swapped = None
+    for crk, cr in enumerate(case['creations']):
+        if case.get('swap') is not None and crk == case['swap']:
+            swapped = (g, g.peek() if case['gen'] != 'uuid' else len(g.handed))
+            g = RecordingUUID()
+            m.id_generator = g
         c = classes[cr['cls']]
         attrs = c['attrs']
         has_unknown = any(t.upper() not in gen_schema.CORE_TYPES and n != 'Ref_x9' for n, t in attrs)
@@ -198,7 +206,14 @@ def run_case(case, res=None):
             if got in used:
                 fail('defaulted-id-repeats', '%s.%s = %r was already handed out' % (c['name'], n, got))
             used.add(got)
-            if case['gen'] == 'int':
+            if swapped is not None:
+                if got not in g.handed:
+                    fail('defaulted-id-not-from-generator', '%r not produced by the generator installed before this creation' % (got,))
+                old, mark = swapped
+                now = old.peek() if case['gen'] != 'uuid' else len(old.handed)
+                if now != mark:
+                    fail('replaced-generator-still-used', 'the replaced generator advanced from %r to %r' % (mark, now))
+            elif case['gen'] == 'int':
                 # IntegerGenerator hands out 1,2,3..: a fresh default is a positive integer not above the number
                 # of id attributes initialised so far
                 if not (1 <= got <= uid_slots):
@@ -214,6 +229,8 @@ def run_case(case, res=None):
         sum(1 for c in classes for a in c['attrs'] if a[1].upper() == 'UNIQUE_ID') >= 2
     if res is not None:
         cl = ['gen-' + case['gen']]
+        if swapped is not None:
+            cl.append('generator-replaced')
         if case['unknown']:
             cl.append('unknown-type')
         if case['ref']:
